@@ -28,7 +28,16 @@ for line in changed:
         continue
     # new or modified non-shared file: take theirs (warn if we also modified it)
     ours_changed = subprocess.run(f"git diff --quiet $(git merge-base HEAD FETCH_HEAD) HEAD -- '{path}'", shell=True, cwd=dst).returncode != 0
+    if ours_changed and st.startswith("M") and "Generated/" in path:
+        continue
     if ours_changed and st.startswith("M"):
+        # three-way merge
+        import tempfile
+        b = tempfile.NamedTemporaryFile(delete=False); b.write(subprocess.run(f"git show $(git merge-base HEAD FETCH_HEAD):'{path}'", shell=True, cwd=dst, stdout=subprocess.PIPE).stdout); b.close()
+        t = tempfile.NamedTemporaryFile(delete=False); t.write(subprocess.run(f"git show FETCH_HEAD:'{path}'", shell=True, cwd=dst, stdout=subprocess.PIPE).stdout); t.close()
+        rc = subprocess.run(["git", "merge-file", os.path.join(dst, path), b.name, t.name]).returncode
+        print("three-way merged", path, "conflicts:" if rc else "clean", rc)
+        continue
         print("!! both modified:", path, "-> keeping ours, theirs saved as", path + "." + wp)
         os.makedirs(os.path.dirname(os.path.join(dst, path)), exist_ok=True)
         with open(os.path.join(dst, path + "." + wp), "wb") as f:
